@@ -155,13 +155,15 @@ PROPS = {
         assumptions=["the oracle is agreement between chains, not an absolute reference (absolute correctness: C01, C08, C10)", "ARM/MIPS/VMX implementations are not compiled on this host"],
     ),
     "C04": dict(
-        level="exploration", monitors=CHAIN_MON,
+        level="exploration", monitors={"mon_chain": CHAIN_MON["mon_chain"], "mon_trap": {"sources": ["mon_trap.c", "vf_req.c", "ref_pixel.c", "ref_ops.c", "vf.c"]}},
         runs=[dict(name="asan-default-hostile", monitor="mon_chain", flavour="asan", config="hostile-default", cases={"quick": 24000, "thorough": 600000}),
               dict(name="asan-c-only-hostile", monitor="mon_chain", flavour="asan", config="hostile-c-only", env={"PIXMAN_DISABLE": "mmx sse2 ssse3"}, cases={"quick": 12000, "thorough": 300000}),
               dict(name="asan-general-hostile", monitor="mon_chain", flavour="asan", config="hostile-general", env={"PIXMAN_DISABLE": "fast mmx sse2 ssse3"}, cases={"quick": 12000, "thorough": 300000}),
               dict(name="asan-wholeops-hostile", monitor="mon_chain", flavour="asan", config="hostile-wholeops", env={"PIXMAN_DISABLE": "wholeops"}, cases={"quick": 12000, "thorough": 300000}),
               dict(name="asan-mmx-top", monitor="mon_chain", flavour="asan", config="hostile-mmx", env={"PIXMAN_DISABLE": "sse2 ssse3"}, cases={"quick": 8000, "thorough": 300000}),
               dict(name="asan-no-ssse3", monitor="mon_chain", flavour="asan", config="hostile-no-ssse3", env={"PIXMAN_DISABLE": "ssse3"}, cases={"quick": 8000, "thorough": 300000}),
+              dict(name="traps-asan", monitor="mon_trap", flavour="asan", config="hostile", cases={"quick": 4000, "thorough": 200000}),
+              dict(name="traps-guards", monitor="mon_trap", flavour="plain", config="hostile", cases={"quick": 8000, "thorough": 400000}),
               dict(name="guards-default-hostile", monitor="mon_chain", flavour="plain", config="hostile-default", cases={"quick": 60000, "thorough": 1500000}),
               dict(name="guards-wholeops-hostile", monitor="mon_chain", flavour="plain", config="hostile-wholeops", env={"PIXMAN_DISABLE": "wholeops"}, cases={"quick": 30000, "thorough": 800000})],
         rule="the C02 request stream (every fast-path / iterator table entry + random requests) with every source, mask, destination and alpha map in exact-size storage: guard pages directly after (2/3) or before (1/3) the storage in the plain flavour, "
@@ -243,6 +245,19 @@ PROPS = {
         floors={"any": {"labels:op_role_group": 300, "groups": 50000}},
         assumptions=["metamorphic oracle: agreement between presentations, not an absolute reference (C01/C08 give those)"],
     ),
+    "C12": dict(
+        level="exploration", monitors={"mon_trap": {"sources": ["mon_trap.c", "vf_req.c", "ref_pixel.c", "ref_ops.c", "vf.c"]}},
+        runs=[dict(name="plain", monitor="mon_trap", flavour="plain", cases={"quick": 16000, "thorough": 1500000}),
+              dict(name="general-only", monitor="mon_trap", flavour="plain", config="general-only", env=GENERAL_ONLY, cases={"quick": 5000, "thorough": 300000}),
+              dict(name="asan", monitor="mon_trap", flavour="asan", cases={"quick": 3000, "thorough": 150000})],
+        rule="one case = 10 shapes: (a) rasterize_trapezoid into a1/a4/a8 images (1..40 x 1..12, empty or prefilled for saturation, pixel offsets) judged per pixel against a sample-counting reference: rows of the depth's grid with top <= y < bottom, "
+             "edge abscissae as exact rationals, a sample is inside iff left <= s < right, samples within 2/65536 of an edge are ambiguous (coverage interval), saturation at 2^n-1; shapes whose exact edge leaves the 32-bit 16.16 range at a sampled row are set aside; "
+             "(b) a trapezoid vs its two halves (horizontal cut; cut along a line between the edges), (c) pixel offset vs translated coordinates, (d) add_triangles vs the two-trapezoid decomposition, "
+             "(e) composite_trapezoids/triangles (14 operators, a1/a4/a8 masks, clips, direct ADD route) vs rasterising into a mask built by the monitor and compositing it, (f) add_trapezoids vs a rasterize loop: all bit-exact; "
+             "edges of every slope class (vertical, dy = e, slivers, very slanted bands, endpoints up to +-32000 px away); evaluations = pixels compared; a cell = (depth, size, shape) / (mode, image content)",
+        floors={"any": {"pixels_covered": 100000, "metamorphic_cases": 20000, "composite_cases": 8000, "labels:meta_modes": 12, "labels:composite_op_mask": 60}},
+        assumptions=["sample grid from the Render specification constants; edges as exact rationals in 128-bit integers", "the 2/65536 ambiguity band reflects the library's snapping of edges to 16.16"],
+    ),
 }
 
 # ---------------------------------------------------------------- MANIFEST texts
@@ -311,6 +326,11 @@ MANIFEST_TEXT["C09"] = dict(
     technique="metamorphic runtime monitor: identical opaque content in different presentations (alpha-less / alpha=255 / 565 / solid / 1x1 repeat) as source, mask or destination must give the same picture; 3 implementation chains",
     level_text="Exploration: 10^5..5*10^6 request groups over all 53 operators x 3 roles x presentation groups x transforms/filters/repeats, exercising every opacity-driven operator reduction and IS_OPAQUE/SAMPLES_OPAQUE promotion; pixel-exact comparison (one code value for float-class operators).",
     level_note="trusted: the content painter in harness/mon_c09.c; comparison on defined destination bits")
+
+MANIFEST_TEXT["C12"] = dict(
+    technique="reference-model runtime monitor (sample counting with exact rational edges, ambiguity band) + exact metamorphic/differential oracles (abutting parts, pixel offsets, triangle decomposition, composite vs mask route), plain + ASan",
+    level_text="Exploration: 10^5..10^7 shapes of every slope class on a1/a4/a8 targets; per-pixel coverage is compared with the count of grid samples inside the exact shape, and five bit-exact equalities between different library routes are checked.",
+    level_note="trusted: sample-grid constants and rational edge evaluation in harness/mon_trap.c")
 
 NOT_CLAIMED = {p: "monitor not built yet in this round (design in DESIGN.md section 6); no claim is made" for p in
                ["C%02d" % i for i in range(1, 21)]}
